@@ -305,16 +305,20 @@ Record cpv := mk_cpv {
 
 Definition param_name : string := "collection_name".
 
+(* str(container_type) formatted into a line template: the {container_type} placeholder is
+   replaced by the class's own __str__ template *)
+Definition compose (cls : pattern) (line : pattern) : pattern :=
+  merge_lits (flat_map (fun x => match x with PHole HCont => cls | _ => [x] end) line).
+Definition line_env (s : cspec) (tok : string) : henv := {| e_cont := ""; e_type := cs_type s; e_tok := tok |}.
+
 (* mirrors event_collection_coder.get_running_code_CPPCodeValue and its miniAOD override;
    tok = the token name in force for this call *)
 Definition running_code (cd : coder) (s : cspec) (tok : string) : list string :=
-  let e := {| e_cont := cont_str s; e_type := cs_type s; e_tok := tok |} in
-  map (fstring e) (cd_lines cd).
+  map (fun p => fstring (line_env s tok) (compose (cs_str s) p)) (cd_lines cd).
 Definition token_fields (cd : coder) (s : cspec) (tok : uname) : list (vdecl * string) :=
   match cd_init cd, token_type s with
   | Some p, Some tty =>
-    [ (mk_vdecl tty tok,
-       fstring {| e_cont := cont_str s; e_type := cs_type s; e_tok := render_name tok |} p) ]
+    [ (mk_vdecl tty tok, fstring (line_env s (render_name tok)) (compose (cs_str s) p)) ]
   | _, _ => []
   end.
 
